@@ -83,7 +83,7 @@ theorem flushExternal_spec (c : CS) (he : c.ext = false) (hm : ∀ a ∈ c.exter
 
 /-! ### a whole step -/
 theorem J.init (ext : Bool) : J ({ ext := ext } : CS) [] [] :=
-  ⟨inv_init, rfl, rfl, rfl, by simp, by simp, fun m _ => TS.nil m⟩
+  ⟨inv_init, rfl, rfl, by simp, by simp, fun m _ => TS.nil m⟩
 
 theorem dom_find (c : CS) (a : Nat) (h : a ∈ domOf c) : (c.find a).isSome = true := by
   unfold CS.find
@@ -113,7 +113,7 @@ theorem J.appendRules {c : CS} {P defs} (hj : J c P defs) (rs : List Rule) (xs :
     (hr : ∀ m, Agree c m → rulesOf xs = rs.map (renRule m))
     (hin : ∀ r ∈ rs, (∀ a ∈ r.head, a ∈ domOf c) ∧ (∀ a ∈ r.body.atoms, a ∈ domOf c) ∧ r.body.Ok) :
     J { c with out := c.out ++ xs } (P ++ rs) defs := by
-  refine ⟨hj.inv, hj.nofail, hj.noheur, hj.keys, hj.defsOk, ?_, ?_⟩
+  refine ⟨hj.inv, hj.nofail, hj.keys, hj.defsOk, ?_, ?_⟩
   · intro r hrm
     rcases List.mem_append.mp hrm with h | h
     · exact hj.inOk r h
@@ -204,6 +204,55 @@ theorem extP_congr (c c' : CS) (h1 : ∀ b, hd c' b = hd c b ∧ ex c' b = ex c 
 theorem extP_nil (c : CS) (h : c.externs = []) : extP c = [] := by
   simp [extP, factsOf, freeOf, h]
 
+/-- one round of `flushHeuristic` -/
+def heuStep (c : CS) (h : Convert.Heu) : CS :=
+  match c.find h.atom with
+  | none => c
+  | some ma =>
+    let nm := if ma.shown then c.getName ma.smId else none
+    let r : CS × List Nat := match nm with
+      | some n => (c, n)
+      | none =>
+        let n := Convert.s "_atom(" ++ AspifOut.printNat ma.smId ++ [41]
+        ((c.updAtom h.atom (fun x => { x with shown := true })).addOutput ma.smId n true, n)
+    r.1.emit (.output (Convert.s "_heuristic(" ++ r.2 ++ [44] ++ heuName h.type ++ [44] ++ AspifOut.printInt h.bias ++ [44] ++ AspifOut.printNat h.prio ++ [41]) [(h.cond : Int)])
+
+theorem flushHeuristic_eq (c : CS) : c.flushHeuristic = c.heur.foldl heuStep c := rfl
+
+/-- a round of the heuristic flush appends one output directive (or nothing), may record a generated name, and touches nothing else the
+    invariants speak about -/
+theorem heuStep_frame (c : CS) (h : Convert.Heu) :
+    abs (heuStep c h) = abs c ∧ (heuStep c h).fail = c.fail ∧ (heuStep c h).aux = c.aux ∧ (heuStep c h).ext = c.ext ∧ (heuStep c h).minimize = c.minimize ∧
+    (heuStep c h).externs = c.externs ∧ (heuStep c h).heur = c.heur ∧ rulesOf (heuStep c h).out = rulesOf c.out ∧ minsOf (heuStep c h).out = minsOf c.out ∧
+    (∀ b, hd (heuStep c h) b = hd c b ∧ ex (heuStep c h) b = ex c b) := by
+  unfold heuStep
+  cases hf : c.find h.atom with
+  | none => exact ⟨rfl, rfl, rfl, rfl, rfl, rfl, rfl, rfl, rfl, fun _ => ⟨rfl, rfl⟩⟩
+  | some ma =>
+    simp only
+    cases hn : (if ma.shown = true then c.getName ma.smId else none) with
+    | some n =>
+      simp only
+      exact ⟨rfl, rfl, rfl, rfl, rfl, rfl, rfl, by simp [CS.emit, rulesOf_append, rulesOf, inRule], by simp [CS.emit, minsOf_append, minsOf, minOf], fun _ => ⟨rfl, rfl⟩⟩
+    | none =>
+      simp only
+      have e := abs_updAtom c h.atom (fun x => { x with shown := true }) (fun _ => rfl)
+      have hr : ∀ (n : List Nat) (c' : List Int), inRule (Call.output n c') = none := fun _ _ => rfl
+      have hmn : ∀ (n : List Nat) (c' : List Int), minOf (Call.output n c') = none := fun _ _ => rfl
+      refine ⟨?_, rfl, rfl, rfl, rfl, rfl, rfl, ?_, ?_, ?_⟩
+      · show abs (c.updAtom h.atom (fun x => { x with shown := true })) = abs c
+        exact e
+      · show rulesOf (c.out ++ [_]) = rulesOf c.out
+        rw [rulesOf_append]; simp only [rulesOf, List.filterMap_cons, hr, List.filterMap_nil, List.append_nil]
+      · show minsOf (c.out ++ [_]) = minsOf c.out
+        rw [minsOf_append]; simp only [minsOf, List.filterMap_cons, hmn, List.filterMap_nil, List.append_nil]
+      · intro b
+        exact ⟨hd_upd_other c h.atom (fun x => { x with shown := true }) (fun _ => rfl) b, ex_upd_other c h.atom (fun x => { x with shown := true }) (fun _ => rfl) b⟩
+
+theorem J.heuStep {c : CS} {P defs} (hj : J c P defs) (h : Convert.Heu) : J (heuStep c h) P defs := by
+  obtain ⟨h1, h2, h3, _, _, _, h7, h8, _, _⟩ := heuStep_frame c h
+  exact hj.of (by rw [h1]; exact .refl _) h2 h7 h3 (by rw [h8])
+
 /-- `flush` (the end of a step): the invariant holds afterwards, with the rules of the pending externals added to the input side -/
 theorem J.flush {c : CS} {P defs} (hj : J c P defs) (hm : ∀ a ∈ c.externs, a ∈ domOf c) (hE : c.ext = false ∨ c.externs = []) :
     J c.flush (P ++ extP c) defs := by
@@ -226,16 +275,15 @@ theorem J.flush {c : CS} {P defs} (hj : J c P defs) (hm : ∀ a ∈ c.externs, a
       rw [f2.trans he]
       simpa using h1
   have h3 : J c.flushMinimize.flushExternal.flushHeuristic (P ++ extP c) defs := by
-    unfold CS.flushHeuristic
-    rw [h2.noheur]
-    simpa using h2
+    rw [flushHeuristic_eq]
+    exact J.foldl _ (fun c h hc => hc.heuStep h) _ _ h2
   have h4 : J c.flushMinimize.flushExternal.flushHeuristic.flushSymbols (P ++ extP c) defs := by
     unfold CS.flushSymbols
     apply J.foldl _ _ _ _ h3
     intro c p hc
     exact hc.emit _ rfl
   have h5 := h4.emit (.assume [-1]) rfl
-  exact ⟨h5.inv, h5.nofail, rfl, h5.keys, h5.defsOk, h5.inOk, h5.tr⟩
+  exact ⟨h5.inv, h5.nofail, h5.keys, h5.defsOk, h5.inOk, h5.tr⟩
 
 /-- the calls of one program step -/
 def stepCalls (inc : Bool) (ds : List Call) : List Call := [.initProgram inc, .beginStep] ++ ds ++ [.endStep]
@@ -543,6 +591,14 @@ theorem apply_frameM (c : CS) (hf : c.fail = false) (x : Call) (hx : PlainOk x) 
       · exact ⟨rfl, by simp [CS.emit, minsOf_append, minsOf, minOf]⟩
       · exact ⟨rfl, rfl⟩
     exact ⟨h.1.trans hp.1, h.2.trans hp.2⟩
+  | heuristic a t bias prio cond =>
+    rw [apply_heu_eq c hf]
+    have h := makeAtom_frameM (pass c (.heuristic a t bias prio cond)) cond true
+    have hp : (pass c (.heuristic a t bias prio cond)).minimize = c.minimize ∧ minsOf (pass c (.heuristic a t bias prio cond)).out = minsOf c.out := by
+      unfold pass; split
+      · exact ⟨rfl, by simp [CS.emit, minsOf_append, minsOf, minOf]⟩
+      · exact ⟨rfl, rfl⟩
+    exact ⟨h.1.trans hp.1, h.2.trans hp.2⟩
   | external a v =>
     have h := rest_mapAtom c a
     rw [apply_external_eq c hf]
@@ -618,6 +674,11 @@ theorem M.step {c : CS} {Ms} (hM : M c Ms) (hf : c.fail = false) (x : Call) (hx 
   | acycEdge a b cond =>
     simp only at h1
     have e : minsOf [Call.acycEdge a b cond] = [] := rfl
+    rw [e, List.append_nil]
+    exact ⟨fun X p => by rw [h1]; exact hM.cost X p, by rw [h1]; exact hM.nz, h2.trans hM.nomin⟩
+  | heuristic a t bias prio cond =>
+    simp only at h1
+    have e : minsOf [Call.heuristic a t bias prio cond] = [] := rfl
     rw [e, List.append_nil]
     exact ⟨fun X p => by rw [h1]; exact hM.cost X p, by rw [h1]; exact hM.nz, h2.trans hM.nomin⟩
   | external a v =>
@@ -827,6 +888,10 @@ theorem apply_plain_ext (c : CS) (hf : c.fail = false) (x : Call) (hx : PlainOk 
     rw [apply_edge_eq c hf]
     have hp : (pass c (.acycEdge a b cond)).ext = c.ext := by unfold pass; split <;> rfl
     exact (makeAtom_ext _ cond true).trans hp
+  | heuristic a t bias prio cond =>
+    rw [apply_heu_eq c hf]
+    have hp : (pass c (.heuristic a t bias prio cond)).ext = c.ext := by unfold pass; split <;> rfl
+    exact (makeAtom_ext _ cond true).trans hp
   | external a v =>
     rw [apply_external_eq c hf]; split
     · show (c.mapAtom a).1.ext = _; exact rext (rest_mapAtom c a)
@@ -854,6 +919,81 @@ theorem preEnd_ext (ext inc : Bool) (ds : List Call) (hx : ∀ d ∈ ds, PlainOk
     rw [apply_begin _ a1.nofail]; exact b1.emit a1.inv _ rfl
   unfold preEnd
   rw [run_plain_ext a2 b2 ds hx, apply_begin _ a1.nofail, apply_init _ rfl]
+  rfl
+
+/-! ### steps without heuristic directives leave nothing for the heuristic flush -/
+def isHeu : Call → Bool
+  | .heuristic .. => true
+  | _ => false
+
+theorem auxAtom_heur (c : CS) (cond : List Int) : (c.auxAtom cond).1.heur = c.heur := by
+  unfold CS.auxAtom CS.emit
+  simp only
+  exact (congrArg (·.2.2.2.2.2.1) (rest_mapLits { c with next := c.next + 1, aux := c.aux ++ [c.next] } cond [])).trans rfl
+
+theorem makeAtom_heur (c : CS) (cond : List Int) (named : Bool) : (c.makeAtom cond named).1.heur = c.heur := by
+  unfold CS.makeAtom
+  split
+  · simp only
+    split
+    · exact (auxAtom_heur _ cond).trans (congrArg (·.2.2.2.2.2.1) (rest_mapAtom c _))
+    · show (c.mapAtom (cond.headD 0).natAbs).1.heur = _
+      exact congrArg (·.2.2.2.2.2.1) (rest_mapAtom c _)
+  · exact auxAtom_heur c cond
+
+theorem apply_plain_heur (c : CS) (hf : c.fail = false) (x : Call) (hx : PlainOk x) (hn : isHeu x = false) : (c.apply x).heur = c.heur := by
+  have rh : ∀ {c' : CS}, rest c' = rest c → c'.heur = c.heur := fun h => congrArg (·.2.2.2.2.2.1) h
+  cases x with
+  | rule ht head body =>
+    rw [apply_rule_eq c hf]; split
+    · show ((c.mapHead head).1.mapLits body []).1.heur = _; exact rh (by simp)
+    · rfl
+  | sumRule ht head bound body =>
+    rw [apply_sum_eq c hf]; split
+    · split
+      · show ((c.mapHead head).1.mapWLits body []).1.heur = _; exact rh (by simp)
+      · show ((c.mapHead head).1.mapWLits body []).1.heur = _; exact rh (by simp)
+    · rfl
+  | minimize prio lits =>
+    have hany : lits.any (fun p => p.2 == I32MINc) = false := by
+      rw [List.any_eq_false]; intro p hp; simpa using (hx p hp).2
+    unfold CS.apply
+    simp only [hf, Bool.false_eq_true, ↓reduceIte, hany]
+  | output str cond =>
+    rw [apply_output_eq c hf]
+    exact makeAtom_heur c cond true
+  | acycEdge a b cond =>
+    rw [apply_edge_eq c hf]
+    have hp : (pass c (.acycEdge a b cond)).heur = c.heur := by unfold pass; split <;> rfl
+    exact (makeAtom_heur _ cond true).trans hp
+  | heuristic a t bias prio cond => cases hn
+  | external a v =>
+    rw [apply_external_eq c hf]; split
+    · show (c.mapAtom a).1.heur = _; exact rh (rest_mapAtom c a)
+    · exact rh (rest_mapAtom c a)
+  | _ => exact absurd hx (by simp [PlainOk])
+
+theorem run_plain_heur {c : CS} {P defs} (hj : J c P defs) {O} (hk : K c O defs) (ds : List Call) (hx : ∀ d ∈ ds, PlainOk d) (hn : ∀ d ∈ ds, isHeu d = false) :
+    (ds.foldl CS.apply c).heur = c.heur := by
+  induction ds generalizing c P O defs with
+  | nil => rfl
+  | cons d r ih =>
+    obtain ⟨defs1, h1, k1⟩ := apply_plain hj hk d (hx d (by simp))
+    simp only [List.foldl_cons]
+    rw [ih h1 k1 (fun e he => hx e (by simp [he])) (fun e he => hn e (by simp [he]))]
+    exact apply_plain_heur c hj.nofail d (hx d (by simp)) (hn d (by simp))
+
+theorem preEnd_noheur (ext inc : Bool) (ds : List Call) (hx : ∀ d ∈ ds, PlainOk d) (hn : ∀ d ∈ ds, isHeu d = false) : (preEnd ext inc ds).heur = [] := by
+  have a1 : J (CS.apply { ext := ext } (.initProgram inc)) [] [] := by
+    rw [apply_init _ rfl]; exact (J.init ext).emit _ rfl
+  have b1 : K (CS.apply { ext := ext } (.initProgram inc)) [] [] := by
+    rw [apply_init _ rfl]; exact (K.init ext).emit (J.init ext).inv _ rfl
+  have a2 : J ((CS.apply { ext := ext } (.initProgram inc)).apply .beginStep) [] [] := by
+    rw [apply_begin _ a1.nofail]; exact a1.emit _ rfl
+  have b2 : K ((CS.apply { ext := ext } (.initProgram inc)).apply .beginStep) [] [] := by
+    rw [apply_begin _ a1.nofail]; exact b1.emit a1.inv _ rfl
+  unfold preEnd
+  rw [run_plain_heur a2 b2 ds hx hn, apply_begin _ a1.nofail, apply_init _ rfl]
   rfl
 
 /-- **everything about one step**: the invariants before `endStep`, and the translation invariant after it with the
